@@ -33,6 +33,26 @@ THEOREMS = [
     "Cv.c6b_dist",
     "Cv.c6b_wide",
     "Cv.beamAdvanced_exact_unpruned",
+    "Cv.C06e.encoded_beamSimple_sound_noball",
+    "Cv.C06e.encoded_beamSimple_sound_ball",
+    "Cv.C06e.encoded_bfs_hashes_isBall",
+    "Cv.C06e.encoded_beamAdvanced_sound",
+    "Cv.C06e.encoded_beam_length_ge_dist",
+    "Cv.C06e.encoded_beam_length_ge_dist_ball",
+    "Cv.C06e.encoded_beam_length_ge_dist_advanced",
+    "Cv.C06e.encoded_beam_unreachable_not_found",
+    "Cv.C06e.encoded_beam_unreachable_not_found_ball",
+    "Cv.C06e.encoded_beam_unreachable_not_found_advanced",
+    "Cv.C06e.encoded_beamSimple_exact_unpruned",
+    "Cv.C06e.encoded_beamAdvanced_exact_unpruned",
+    "Cv.C06e.plain_beamSimple_sound_noball",
+    "Cv.C06e.plain_beamSimple_sound_ball",
+    "Cv.C06e.plain_bfs_hashes_isBall",
+    "Cv.C06e.plain_beamAdvanced_sound",
+    "Cv.C06e.plain_beam_length_ge_dist",
+    "Cv.C06e.plain_beam_unreachable_not_found",
+    "Cv.C06e.plain_beamSimple_exact_unpruned",
+    "Cv.C06e.plain_beamAdvanced_exact_unpruned",
 ]
 
 
@@ -284,7 +304,7 @@ def main():
         body = json.load(open(os.path.join(VERIF, ck.replay) if not os.path.isabs(ck.replay) else ck.replay))
         ck.guard(run_case, ck, body["case"])
         ck.finish(rule="replay of one recorded case")
-    ck.lean_obligations("CvProps.C06", THEOREMS)
+    ck.lean_obligations(["CvProps.C06", "CvProps.C06e"], THEOREMS)
     for case in json.load(open(os.path.join(VERIF, "harness", "corpus", "C06.json"))):
         ck.guard(run_case, ck, case)
         ck.count("corpus")
